@@ -481,6 +481,13 @@ type c09Interp struct {
 	out   strings.Builder
 	retV  c09Val
 	steps int
+	// lateStrIdx counts stores through an index of a STRING whose base had become a container by
+	// the time of the store (`s[1.5] = s = {}`): the key used is the index as truncated when the
+	// string was read. The Lean model keeps the untruncated number there (Value.lean getMember,
+	// string branch, vs src/value.go:300-303 `fIndex := float64(index)`); reported, and until
+	// the model is repaired the families that can produce the construct do not ask the model
+	// about a program that executes it.
+	lateStrIdx int
 }
 
 var c09ErrReturn = &c09Err{"return"}
@@ -638,8 +645,25 @@ func (in *c09Interp) materialize(l *c09Loc) (*c09Cell, error) {
 		}
 		container = pc.v
 	case 'h':
-		// a character (or the null past the end) of a string: strings cannot be stored into
-		return nil, c09E("cannot set member on a string")
+		// a member of the null found past the end of a string. the store looks at what the base
+		// of that index holds NOW: a string cannot be stored into; if the right-hand side has
+		// meanwhile turned the base into a container (`s[5][0] = s = {}`), the index (truncated
+		// to an integer when the string was read) is created there like any missing member
+		base := p.parent.cell.v
+		if p.cell.v.k != 'z' || (base.k != 'a' && base.k != 'o') {
+			return nil, c09E("cannot set member on a string")
+		}
+		pc, err := c09SetMember(base, p.key, &c09Cell{c09Null})
+		if err != nil {
+			return nil, err
+		}
+		in.lateStrIdx++
+		if l.key.k == 's' {
+			pc.v = c09NewObj()
+		} else {
+			pc.v = c09NewArr()
+		}
+		container = pc.v
 	default:
 		if p.cell.v.k == 'u' {
 			// an unset value becomes an array for a numeric key, an object otherwise
@@ -693,6 +717,7 @@ func (in *c09Interp) assign(l *c09Loc, src *c09Cell) (*c09Cell, error) {
 		if err != nil {
 			return nil, err
 		}
+		in.lateStrIdx++
 		cell = c
 	}
 	w, err := c09CopyVal(src.v)
@@ -2604,5 +2629,377 @@ func init() {
 					}, NonTrivial: c09NT})
 			}
 		},
+	})
+}
+
+// ---------------------------------------------------------------- several root selectors
+//
+// Every -r selector is evaluated on a conversion of the decoded value of its own
+// (src/evaluator.go EvalProgram -> EvalExpression -> NewValue), so the roots of two
+// selectors never share a container, however much the selected parts overlap: what the
+// rules write under one root changes exactly the addressed location of THAT root, and
+// every later root starts from the document as it was read.
+
+type c09Step struct {
+	key   string
+	idx   int
+	isIdx bool
+}
+
+func c09SelText(steps []c09Step) string {
+	var sb strings.Builder
+	sb.WriteString("$")
+	for _, s := range steps {
+		if s.isIdx {
+			fmt.Fprintf(&sb, "[%d]", s.idx)
+		} else {
+			sb.WriteString("." + s.key)
+		}
+	}
+	return sb.String()
+}
+
+// c09Walk follows a selector path in a converted document; a missing member is null.
+func c09Walk(v c09Val, steps []c09Step) c09Val {
+	for _, s := range steps {
+		switch {
+		case s.isIdx && v.k == 'a' && s.idx < len(v.a.e):
+			v = v.a.e[s.idx].v
+		case !s.isIdx && v.k == 'o' && v.o.m[s.key] != nil:
+			v = v.o.m[s.key].v
+		default:
+			return c09Null
+		}
+	}
+	return v
+}
+
+var c09IdentKey = map[string]bool{"x": true, "y": true, "z": true, "k": true, "list": true, "n": true, "s": true, "o": true}
+
+// c09SelPaths: the selector paths (depth <= 3) into a converted document, each with the
+// kind of value it selects.
+func c09SelPaths(v c09Val, prefix []c09Step, depth int, out *[][]c09Step) {
+	*out = append(*out, append([]c09Step{}, prefix...))
+	if depth >= 3 {
+		return
+	}
+	switch v.k {
+	case 'o':
+		for _, k := range v.o.keys() {
+			if c09IdentKey[k] {
+				c09SelPaths(v.o.m[k].v, append(prefix, c09Step{key: k}), depth+1, out)
+			}
+		}
+	case 'a':
+		for i := 0; i < len(v.a.e) && i < 3; i++ {
+			c09SelPaths(v.a.e[i].v, append(prefix, c09Step{idx: i, isIdx: true}), depth+1, out)
+		}
+	}
+}
+
+// c09SelChoice: 2-3 overlapping selectors: the same path twice or three times, a path and
+// a prefix of it (either order), a path and the whole document, a path between two copies
+// of another one.
+func c09SelChoice(r *rand.Rand, doc c09Val) (sels [][]c09Step, shape string) {
+	var all, containers [][]c09Step
+	c09SelPaths(doc, nil, 0, &all)
+	for _, p := range all {
+		if v := c09Walk(doc, p); (v.k == 'o' && len(v.o.m) > 0) || (v.k == 'a' && len(v.a.e) > 0) {
+			containers = append(containers, p)
+		}
+	}
+	first := pick(r, containers) // the document itself is one of them
+	if chance(r, 0.1) {
+		first = pick(r, all) // a scalar or an empty container as the first root
+	}
+	prefixOf := func(p []c09Step) []c09Step { return p[:r.Intn(len(p)+1)] }
+	var ext [][]c09Step // paths that extend first
+	for _, p := range all {
+		if len(p) > len(first) && c09SelText(p[:len(first)]) == c09SelText(first) {
+			ext = append(ext, p)
+		}
+	}
+	switch k := r.Intn(10); {
+	case k < 3:
+		return [][]c09Step{first, first}, "same-twice"
+	case k < 4:
+		return [][]c09Step{first, first, first}, "same-three-times"
+	case k < 6:
+		return [][]c09Step{first, prefixOf(first)}, "path-then-prefix"
+	case k < 8 && len(ext) > 0:
+		e := pick(r, ext)
+		if chance(r, 0.5) {
+			return [][]c09Step{first, e}, "path-then-extension"
+		}
+		return [][]c09Step{first, e, first}, "path-extension-path"
+	case k < 9:
+		return [][]c09Step{first, nil, first}, "path-document-path"
+	}
+	return [][]c09Step{first, pick(r, all)}, "path-then-any"
+}
+
+// c09RunSels: what the single-rule program must print when the document is read once and
+// the rule driver visits the roots selected by sels in order (globals persist from root to
+// root, every root is a fresh conversion of the document), and what -o writes (the last root).
+func c09RunSels(p *c09Prog, doc string, sels [][]c09Step) (class, out, js string, lateStrIdx bool) {
+	in := c09NewInterp(p.funcs...)
+	var root *c09Cell
+	for _, sel := range sels {
+		root = &c09Cell{c09Walk(c09Decode(doc), sel)}
+		cells := []*c09Cell{root}
+		if root.v.k == 'a' {
+			cells = append([]*c09Cell{}, root.v.a.e...)
+		}
+		for _, c := range cells {
+			in.root = c
+			if err := in.execAll(p.body); err != nil {
+				if err == c09ErrUnsupported {
+					return "unsupported", "", "", false
+				}
+				return "runtime", in.out.String(), "", in.lateStrIdx > 0
+			}
+		}
+	}
+	j, err := c09JSON(root.v)
+	if err != nil {
+		return "ok", in.out.String(), "ERR", in.lateStrIdx > 0
+	}
+	return "ok", in.out.String(), j, in.lateStrIdx > 0
+}
+
+// ---- selector-overlap: rule programs with BEGINFILE / pattern / ENDFILE / END rules over
+// documents with fixed member names, compared with single-selector runs
+
+func c09OverlapDoc(r *rand.Rand) string {
+	a := pick(r, []string{`{"n": 1, "t": [1, 2]}`, `{"n": 5, "t": [], "u": {"v": [0]}}`, `[{"n": 1}, {"n": 2, "t": ["x"]}]`, `[[1, 2], [3]]`, `{"n": 2.5, "t": [{"n": 7}], "u": {"v": []}}`})
+	xs := pick(r, []string{`[1, 2]`, `[1, 2, 3]`, `[]`, `[0.5, "s", null, true]`, `[[1], [2, 3]]`, `[10]`})
+	items := pick(r, []string{`[{"id": 1}, {"id": 2}]`, `[{"id": 1, "tags": ["a"]}, {"id": 2, "tags": []}, {"id": 3}]`, `[]`, `[{"id": 1, "sub": {"k": [1]}}]`, `[{"id": 4, "tags": ["x", "y"]}]`})
+	parts := []string{`"a": ` + a, `"xs": ` + xs, `"items": ` + items, `"s": "str"`, `"k": 5`}
+	r.Shuffle(len(parts), func(i, j int) { parts[i], parts[j] = parts[j], parts[i] })
+	return "{" + strings.Join(parts, ", ") + "}"
+}
+
+var c09OverlapSelSets = [][]string{
+	{"$.a", "$.a"}, {"$.xs", "$.xs"}, {"$.items", "$.items"}, {"$", "$"}, {"$.a", "$.a", "$.a"}, {"$.items", "$.items", "$.items"},
+	{"$.items", "$"}, {"$", "$.items"}, {"$.a", "$"}, {"$", "$.a"}, {"$.xs", "$"}, {"$", "$.xs"},
+	{"$.a", "$.a[0]"}, {"$.a[0]", "$.a"}, {"$.a", "$.a.t"}, {"$.a.t", "$.a"}, {"$.a.u", "$.a.u.v", "$.a"},
+	{"$.items", "$.items[0]"}, {"$.items[0]", "$.items"}, {"$.items[0].tags", "$.items"}, {"$.items", "$.items[1].tags", "$.items[1]"},
+	{"$.xs", "$.xs[0]"}, {"$.xs[0]", "$.xs"}, {"$.xs", "$", "$.xs"}, {"$.items", "$", "$.items"}, {"$.a", "$.items", "$.a"},
+	{"[$.a, $.a]", "$.a"}, {"$.a", "[$.a, $.a]"}, {"{x: $.a, y: $.items}", "$"}, {"$", "{x: $.a, y: $.items}"}, {"[$, $.xs]", "$.xs"},
+	{"$.items", "[$.items[0]]"}, {"$.k", "$.k"}, {"$.missing", "$", "$.missing"}, {"$.s", "$"},
+}
+
+// writes at the root (BEGINFILE / ENDFILE: $ is the selected root)
+var c09OverlapRootWrites = []string{
+	`if ($ is object) $.n = 99`, `if ($ is object) $.extra.deep = true`, `if ($ is object && $.t is array) $.t.push("bf")`,
+	`if ($ is array && $.length() > 0) $[0] = "bf0"`, `if ($ is array) $.push("bfpush")`, `if ($ is object && $.a is object) $.a.n++`,
+	`if ($ is object && $.a is object) $.a.n += 10`, `$ = {fresh: 1}`, `$ = [7, 8]`, `if ($ is array) $.pop()`,
+	`if ($ is object && $.items is array) $.items.push({id: 0})`, `if ($ is object && $.xs is array) $.xs[0] = "x0"`,
+	`if ($ is object && $.items is array && $.items.length() > 0) $.items[0].id = 777`, `if ($ is array && $[0] is object) $[0].mark = "bf"`,
+	`if ($ is array && $[0] is array) $[0].push("deep")`, `if ($ is object) $.n -= 1`, `if ($ is number) $ *= 3`, `if ($ is object && $.x is object) $.x.n = "viaX"`,
+	`if ($ is array && $[1] is object) $[1].n = "second"`, `if ($ is object && $.u is object) $.u.v[2] = "pad"`,
+}
+
+// pattern rules ($ is an element of an array root, or the root)
+var c09OverlapRecWrites = []string{
+	`$ is number { $ = $ * 2 }`, `$ is number { $ += 5 }`, `$ is number { $++ }`, `$ is number { --$ }`, `$ is object { $.seen = true }`, `$ is object { $.id++ }`, `$ is object { $.id += 10 }`,
+	`$ is object && $.tags is array { $.tags.push("p") }`, `$ is object { $.n = 10; $.t[1] = "w" }`, `$ is array { $[0] = "w"; $.push(1) }`,
+	`$ is string { $ = $ + "!" }`, `$ is object && $.a is object { $.a.n -= 1 }`, `{ $ = 0 }`, `$ is object { $ = {replaced: true} }`,
+	`$ is object && $.items is array { $.items.pop() }`, `$ is object && $.xs is array { $.xs[0] += 100; $.xs.push(4) }`,
+	`$ is object { t = $.a; if (t is object) t.viaTemp = 1 }`, `$ is object && $.sub is object { $.sub.k.push(2); $.sub.j.i = 0 }`,
+	`$ is object && $.items is array { for (it in $.items) { if (it is object) it.looped = 1 } }`, `$ is null { $ = "was-null" }`,
+	`$ is object && $.u is object { $.u.v.push(1); $.u.w = [] }`, `$ is array { $.pop() }`, `$ is object { $.n *= 2 }`, `$ is object && $.t is array { $.t[0] = {}; $.t[0].k = 1 }`,
+	`$ is object && $.x is object { $.x.n++ }`, `$ is array && $[0] is object { $[0].n = "inner" }`,
+}
+
+func c09OverlapProgram(r *rand.Rand) string {
+	rules := []string{`BEGINFILE { print "#root"; print "bf", $ }`}
+	saved := chance(r, 0.5)
+	if saved {
+		// a reference to the FIRST root kept until END: what later roots write must not show in it
+		rules = append(rules, `BEGINFILE { if (saved is unknown) saved = $ }`)
+	}
+	for n := pick(r, []int{0, 0, 1, 1, 2}); n > 0; n-- {
+		rules = append(rules, "BEGINFILE { "+pick(r, c09OverlapRootWrites)+" }")
+	}
+	if chance(r, 0.3) {
+		rules = append(rules, `BEGINFILE { print "bf2", $ }`)
+	}
+	rules = append(rules, `{ print "in", $ }`)
+	for n := pick(r, []int{1, 1, 2, 2, 3}); n > 0; n-- {
+		rules = append(rules, pick(r, c09OverlapRecWrites))
+	}
+	rules = append(rules, `{ print "out", $ }`)
+	if chance(r, 0.25) {
+		rules = append(rules, "ENDFILE { "+pick(r, c09OverlapRootWrites)+" }")
+	}
+	rules = append(rules, `ENDFILE { print "ef", $ }`)
+	if saved {
+		rules = append(rules, `END { print "#end"; print "end", $, saved }`)
+	} else if chance(r, 0.5) {
+		rules = append(rules, `END { print "#end"; print "end", $ }`)
+	}
+	return strings.Join(rules, "\n") + "\n"
+}
+
+// what the END rule printed
+func c09EndPart(i Resp) string {
+	out := string(i.Bytes("out"))
+	if at := strings.Index(out, "#end\n"); at >= 0 {
+		return out[at:]
+	}
+	return ""
+}
+
+// the output of a run before END, cut at the marker every root starts with
+func c09Segs(i Resp) []string {
+	out := string(i.Bytes("out"))
+	if at := strings.Index(out, "#end\n"); at >= 0 {
+		out = out[:at] // what the END rule prints belongs to no root
+	}
+	segs := strings.Split(out, "#root\n")
+	return segs[1:]
+}
+
+func c09GenOverlap(r *rand.Rand, tier string, emit func(Case)) {
+	n := tierN(tier, 1500, 25000)
+	for i := 0; i < n; i++ {
+		sels := pick(r, c09OverlapSelSets)
+		m := len(sels)
+		prog := c09OverlapProgram(r)
+		var files []File
+		nv := 0
+		for f, nf := 0, pick(r, []int{1, 1, 1, 1, 2}); f < nf; f++ {
+			var docs []string
+			for v := pick(r, []int{1, 1, 1, 2}); v > 0; v-- {
+				docs = append(docs, c09OverlapDoc(r))
+				nv++
+			}
+			files = append(files, File{Name: []string{"a.json", "b.json"}[f], Data: []byte(strings.Join(docs, "\n"))})
+		}
+		input := c02FilesMeta(files)
+		group := fmt.Sprintf("overlap%d", i)
+		allSame := true
+		for _, s := range sels {
+			if s != sels[0] {
+				allSame = false
+			}
+		}
+		emit(Case{Req: RunReq(prog, sels, files, true), Fields: []string{"class", "out", "json"},
+			Meta:  metaProg(prog, "input", input, "selectors", strings.Join(sels, " | ")),
+			Group: group, NonTrivial: c09NT,
+			Oracle: func(i Resp) string {
+				if i["class"] != "ok" && i["class"] != "runtime" {
+					return "class " + i["class"] + " " + i["msg"]
+				}
+				if !allSame {
+					return ""
+				}
+				// the same selector several times: every root is the document as read, so all roots of one value print the same
+				segs := c09Segs(i)
+				for v := 0; v*m < len(segs); v++ {
+					for k := 1; k < m && v*m+k < len(segs); k++ {
+						if v*m+k == len(segs)-1 && i["class"] != "ok" {
+							break // cut short by the error
+						}
+						if segs[v*m+k] != segs[v*m] {
+							return fmt.Sprintf("selector %s given %d times: root %d of value %d does not start from the document as read: it prints %q, the first root printed %q", sels[0], m, k+1, v+1, segs[v*m+k], segs[v*m])
+						}
+					}
+				}
+				return ""
+			}})
+		// one run per distinct selector alone: root k of every value behaves exactly as in that run
+		done := map[string]bool{}
+		for _, s := range sels {
+			if done[s] {
+				continue
+			}
+			done[s] = true
+			var ks []int
+			for k, t := range sels {
+				if t == s {
+					ks = append(ks, k)
+				}
+			}
+			sel := s
+			emit(Case{Req: RunReq(prog, []string{sel}, files, true), Fields: []string{"class", "out", "json"},
+				Meta:  metaProg(prog, "input", input, "selectors", sel, "role", "the single-selector run the run with "+strings.Join(sels, " | ")+" is compared with"),
+				Group: group, NonTrivial: c09NT,
+				GroupCheck: func(first, self Resp) string {
+					M, S := c09Segs(first), c09Segs(self)
+					for v := 0; v < len(S); v++ {
+						for _, k := range ks {
+							mi := v*m + k
+							if mi >= len(M) {
+								continue
+							}
+							if M[mi] != S[v] {
+								return fmt.Sprintf("with selectors %s, root %d (%s) of value %d prints %q; alone, -r %s prints %q there: the root did not start from the document as read (or a write went somewhere else)",
+									strings.Join(sels, " | "), k+1, sel, v+1, M[mi], sel, S[v])
+							}
+						}
+					}
+					if self["class"] != "ok" && first["class"] == "ok" {
+						return fmt.Sprintf("-r %s alone fails (%s) but the run with %s succeeds", sel, self["class"], strings.Join(sels, " | "))
+					}
+					if self["class"] == "ok" && first["class"] == "ok" {
+						if len(M) != nv*m || len(S) != nv {
+							return fmt.Sprintf("%d values x %d selectors: %d roots visited, alone %d", nv, m, len(M), len(S))
+						}
+						if ks[0] == 0 && c09EndPart(first) != c09EndPart(self) {
+							return fmt.Sprintf("END shows the first root (%s, kept in a variable) as %q; in the run with that selector alone it shows %q: a later root wrote into it", sel, c09EndPart(first), c09EndPart(self))
+						}
+						if ks[len(ks)-1] == m-1 && first["json"] != self["json"] {
+							return fmt.Sprintf("-o after the last root (%s) differs from -o of the run with that selector alone: %q vs %q", sel, string(first.Bytes("json")), string(self.Bytes("json")))
+						}
+					}
+					return ""
+				}})
+		}
+	}
+}
+
+func init() {
+	register(Family{
+		Name: "selector-roots-ideal", Prop: "C09",
+		Rule: "the statement sequences of assign-seq-ideal (assignment / compound / ++ -- / push pop popfirst / parameter, for-in and match aliases / reads, variables aliasing into the document, state dumped after each statement) run with 2-3 OVERLAPPING root selectors over one document: the same path twice or three times, a path and a prefix of it, a path and an extension of it, a path / the whole document / the path again, a path and any other; paths of depth 0-3 through members and indices; the program is generated with the first root in view; -o requested; oracle: the ideal interpreter run over the roots in order, every root a fresh conversion of the document as read, variables persisting from root to root (a variable may keep an alias into an EARLIER root), -o = the last root; compared with the model on class, out and the -o document",
+		Gen: func(r *rand.Rand, tier string, emit func(Case)) {
+			n := tierN(tier, 2500, 40000)
+			for i := 0; i < n; i++ {
+				doc := c09GenDoc(r, 0, true)
+				sels, shape := c09SelChoice(r, c09Decode(doc))
+				firstRoot := c09Walk(c09Decode(doc), sels[0])
+				firstDoc, err := c09JSON(firstRoot)
+				if err != nil || (firstRoot.k == 'a' && len(firstRoot.a.e) == 0) {
+					firstDoc = doc
+					sels[0] = nil
+					if len(sels) == 3 {
+						sels[2] = nil
+					}
+				}
+				ns := 1 + r.Intn(tierN(tier, 6, 10))
+				p := c09GenProgram(r, firstDoc, ns, pick(r, []float64{0, 0, 0.3}))
+				class, out, js, late := c09RunSels(p, doc, sels)
+				prog := p.text()
+				texts := make([]string, len(sels))
+				for k, s := range sels {
+					texts[k] = c09SelText(s)
+				}
+				c := Case{Req: RunReq(prog, texts, []File{{Name: "in.json", Data: []byte(doc)}}, true),
+					Fields: []string{"class", "out", "json"}, Meta: metaProg(prog, "input", doc, "selectors", strings.Join(texts, " | "), "shape", shape, "ideal_class", class),
+					Oracle: c09IdealOracle(class, out, js, true), NonTrivial: c09NT}
+				if late && c.Oracle != nil {
+					c.ImplOnly = true // see c09Interp.lateStrIdx: a known inaccuracy of the model; the ideal interpreter decides
+					c.Meta["model"] = "not asked: store through a string index whose base became a container (model keeps the untruncated index)"
+				}
+				emit(c)
+			}
+		},
+	})
+	register(Family{
+		Name: "selector-overlap", Prop: "C09",
+		Rule: "35 sets of 2-3 overlapping root selectors (the same selector 2-3 times; $.items and $; $.a and $.a[0] / $.a.t; a member between two copies of another; constructed roots [$.a, $.a], {x: $.a, y: $.items} next to their parts; scalar and missing roots) over documents with members a / xs / items / s / k of varying shape, 1-2 files x 1-2 values; programs: a BEGINFILE rule printing a root marker and $, 0-2 BEGINFILE writes at the root ($-paths, $ =, op=, ++, push / pop, auto-created members, element writes), pattern rules printing $ before and after 1-3 writes to the record ($ = / op= / ++ / -- on scalar records, member and deep member writes, push / pop, writes through a temporary and a for-in variable, replacing the record), ENDFILE (sometimes writing, always printing $), END (half of the programs keep a reference to the FIRST root in a variable and print it in END), -o requested; oracle (implementation only): root k of every value prints exactly what the run with selector k ALONE prints there, END prints the kept first root exactly as in the run with the first selector alone, -o equals -o of the last selector alone, the same selector given several times prints the same for every root; compared with the model on class, out and the -o document",
+		Gen:  c09GenOverlap,
 	})
 }
